@@ -381,7 +381,7 @@ def check_routing(rep, fl, rule="R08.2"):
             good, cx = all_states(b, at, (bi, term_idx(b, bi)), NOT(A(added)), hist=True)
             rep.check(good, rule, fl, b, "on_reject only if not added", "on_reject only for items the policy did not admit", "on_reject reachable for an admitted item: the value is both resident and handed back", loc=t["sp"])
     # processor.on_evict(item): victims found in the store
-    hi = fl.proc_fn("handle_item")
+    hi = fl.facts.flat(fl.proc_fn("handle_item"))
     evs = calls_to(hi, "CacheCallback::on_evict")
     pes = calls_to(hi, fl.processor + "::prepare_evict")
     ok = len(evs) == 1
@@ -457,4 +457,5 @@ def check_C08(rep, fl):
     props_store.check_buckets(rep, fl)
     props_store.check_em_insert(rep, fl)
     props_store.check_em_update(rep, fl)
+    props_store.check_em_remove(rep, fl)
     props_store.check_em_cleanup(rep, fl)
